@@ -19,6 +19,7 @@ import (
 	"fmt"
 	"strconv"
 	"strings"
+	"sync/atomic"
 	"testing/synctest"
 	"time"
 
@@ -59,10 +60,10 @@ type cResult struct {
 	outcome  string // resp<i> noresp ctx nilnil other:<text>
 	closeT   int64  // instant Close returned, -1 if not called / not returned by H
 	// after H (cleanup; oracle only)
-	lateTx       int    // transmissions of the call under test after it returned
-	finallyRet   bool   // call returned after cancel+Close
-	closeRetEnd  bool   // Close returned
-	probeErr     string // "" = not probed; "ok"; else the error that refused the xid
+	lateTx      int    // transmissions of the call under test after it returned
+	finallyRet  bool   // call returned after cancel+Close
+	closeRetEnd bool   // Close returned
+	probeErr    string // "" = not probed; "ok"; else the error that refused the xid
 }
 
 func parseInt64(s string) int64 {
@@ -164,9 +165,9 @@ func (c cl4) call(ctx context.Context, x uint32, match func(byte, int) bool, mat
 	_ = cl
 	return outcomeOf(cl, idx, ok, p == nil, err, ctx, nclient4.ErrNoResponse)
 }
-func (c cl4) close() error            { return c.c.Close() }
+func (c cl4) close() error             { return c.c.Close() }
 func (c cl4) reqBytes(x uint32) []byte { return req4(x).ToBytes() }
-func (c cl4) destOK(a any) bool       { return a == any(clDest4) }
+func (c cl4) destOK(a any) bool        { return a == any(clDest4) }
 
 func (c cl6) call(ctx context.Context, x uint32, match func(byte, int) bool, matchNil bool) string {
 	var m nclient6.Matcher
@@ -184,9 +185,9 @@ func (c cl6) call(ctx context.Context, x uint32, match func(byte, int) bool, mat
 	cl, idx, ok := tagOf6(p)
 	return outcomeOf(cl, idx, ok, p == nil, err, ctx, nclient6.ErrNoResponse)
 }
-func (c cl6) close() error            { return c.c.Close() }
+func (c cl6) close() error             { return c.c.Close() }
 func (c cl6) reqBytes(x uint32) []byte { return req6(x).ToBytes() }
-func (c cl6) destOK(a any) bool       { return a == any(clDest6) }
+func (c cl6) destOK(a any) bool        { return a == any(clDest6) }
 
 func newClient(v6 bool, conn *scriptConn, T time.Duration, n, bufCap int) sendAndReader {
 	if v6 {
@@ -234,6 +235,7 @@ func runTimed(sc cScenario) cResult {
 			nTx     int // transmissions recorded when the call returned
 		}
 		retCh := make(chan ret, 1)
+		var closing atomic.Bool // Close has been called (by the script or by the cleanup)
 		go func() {
 			o := cl.call(ctx, timedXid, acceptTagA, sc.matchNil)
 			rt := ret{t: now(), outcome: o, nTx: len(conn.snapshot())}
@@ -245,6 +247,11 @@ func runTimed(sc cScenario) cResult {
 				pc()
 				po := cl.call(pctx, timedXid, acceptTagA, sc.matchNil)
 				conn.setProbing(false)
+				if po == "noresp" && (closing.Load() || sc.n == 0) {
+					// a closed client, or a client configured with zero tries,
+					// answers ErrNoResponse without registering anything
+					po = "ctx"
+				}
 				rt.probe = po
 			}
 			retCh <- rt
@@ -265,6 +272,7 @@ func runTimed(sc cScenario) cResult {
 			case "clo":
 				if !closeCalled {
 					closeCalled = true
+					closing.Store(true)
 					go func() { cl.close(); closeRet <- now() }()
 				}
 			default:
@@ -299,6 +307,7 @@ func runTimed(sc cScenario) cResult {
 		cancel()
 		if !closeCalled {
 			closeCalled = true
+			closing.Store(true)
 			go func() { cl.close(); closeRet <- now() }()
 		}
 		synctest.Wait()
